@@ -450,7 +450,7 @@ func c12System(c *Ctx) {
 		c.Res.Probes["weather-or-waiting"]++
 	}
 	switch r.Class() {
-	case "complete", "rejected-at-start":
+	case "complete", "rejected-at-start", "step-budget":
 	case "failed":
 		if ev, _ := Evaluate(prog, r.Jobs); ev.Rejected == "" && len(r.Panics) == 0 {
 			c.Res.Notes = append(c.Res.Notes, "failed: "+lastLines(r.outBuf.String(), 3))
